@@ -232,4 +232,5 @@ pub fn run(ctx: &mut Ctx) {
             ctx.check("substr:other", &r, &null);
         }
     }
+    crate::spaces::render_probes(ctx, &["cat", "substr"]);
 }
